@@ -63,7 +63,7 @@ fn gen_text_tree(r: &mut Rng, depth: usize) -> String {
         4 => format!("{} {} {}", gen_text_tree(r, depth - 1), ["-o", "-or", "-a", "-and", ","][r.usize(5)], gen_text_tree(r, depth - 1)),
         _ => {
             // deep nesting chain
-            let n = 1 + r.usize(64);
+            let n = 1 + r.usize(56); // at most 5 further levels around it: within the stated bound of 64
             let inner = gen_text_tree(r, 0);
             if r.chance(1, 2) {
                 format!("{}{}{}", "( ".repeat(n), inner, " )".repeat(n))
